@@ -2,6 +2,92 @@
 
 package main
 
+import (
+	"fmt"
+	"io"
+	"math/rand"
+	"runtime"
+	"sort"
+	"strings"
+)
+
 func getState(p *parser) map[string]any { return p.cur.state }
 
 func mkStateCode(run func(p *parser) error) any { return &stateCodeExpr{run: run} }
+
+// poolTest drives the real state-store bookkeeping (newParser, #{}-style writes, cloneState,
+// restoreState, dropped clones, pool garbage collection) of several parser objects through a random
+// interleaving and prints, after every step, what each parser can observe: the line format is the
+// one the model driver prints for Pool.view, so that the two can be diffed.
+func poolTest(seed int64, n int, w io.Writer) {
+	type th struct {
+		p     *parser
+		saved []storeDict // most recent last
+	}
+	r := rand.New(rand.NewSource(seed))
+	const K = 3
+	ths := make([]*th, K)
+	showMap := func(m storeDict) string {
+		keys := make([]string, 0, len(m))
+		for k := range m {
+			keys = append(keys, k)
+		}
+		sort.Strings(keys)
+		parts := make([]string, len(keys))
+		for i, k := range keys {
+			parts[i] = fmt.Sprintf("%s=%v", k[1:], m[k])
+		}
+		return "{" + strings.Join(parts, ",") + "}"
+	}
+	for i := 0; i < n; i++ {
+		t := r.Intn(K)
+		var op string
+		switch x := r.Intn(20); {
+		case x < 2 || (ths[t] == nil && x < 12):
+			op = "start"
+			if ths[t] == nil {
+				ths[t] = &th{p: newParser("", nil)}
+			}
+		case x < 9:
+			k, v := r.Intn(3), r.Intn(50)
+			op = fmt.Sprintf("set %d %d", k, v)
+			if ths[t] != nil {
+				ths[t].p.cur.state[fmt.Sprintf("k%d", k)] = v
+			}
+		case x < 13:
+			op = fmt.Sprintf("clone %d", r.Intn(3))
+			if ths[t] != nil {
+				ths[t].saved = append(ths[t].saved, ths[t].p.cloneState())
+			}
+		case x < 16:
+			op = "restore"
+			if ths[t] != nil && len(ths[t].saved) > 0 {
+				s := ths[t].saved[len(ths[t].saved)-1]
+				ths[t].saved = ths[t].saved[:len(ths[t].saved)-1]
+				ths[t].p.restoreState(s)
+			}
+		case x < 19:
+			op = "drop"
+			if ths[t] != nil && len(ths[t].saved) > 0 {
+				ths[t].saved = ths[t].saved[:len(ths[t].saved)-1]
+			}
+		default:
+			op = fmt.Sprintf("gc %d", r.Intn(3))
+			runtime.GC()
+		}
+		var sb strings.Builder
+		fmt.Fprintf(&sb, "%d %s |", t, op)
+		for j, x := range ths {
+			if x == nil {
+				fmt.Fprintf(&sb, " t%d=none", j)
+				continue
+			}
+			fmt.Fprintf(&sb, " t%d=%s[", j, showMap(x.p.cur.state))
+			for q := len(x.saved) - 1; q >= 0; q-- {
+				sb.WriteString(showMap(x.saved[q]))
+			}
+			sb.WriteString("]")
+		}
+		fmt.Fprintln(w, sb.String())
+	}
+}
